@@ -1127,12 +1127,6 @@ impl IKind {
     pub fn from_name(s: &str) -> Option<IKind> {
         ALL_IKINDS.iter().copied().find(|k| k.name() == s)
     }
-    pub fn two_sided(self) -> bool {
-        matches!(self, IKind::MergeOrdered | IKind::KeyedMergeOrdered)
-    }
-    pub fn keyed(self) -> bool {
-        !matches!(self, IKind::StreamOrder | IKind::MergeOrdered)
-    }
 }
 
 #[derive(Clone, Debug, PartialEq, Eq, Hash)]
